@@ -140,7 +140,12 @@ func execC19(ctx *Ctx, in *Input) *Result {
 			return res
 		}
 		path := filepath.Join(ctx.Scratch, fmt.Sprintf("c19-%d-%d.out", os.Getpid(), in.Index))
-		if err := os.WriteFile(path, []byte(sentinel), 0o644); err != nil {
+		// a long old file: a successful run must replace it completely, not just overwrite its head
+		old := sentinel
+		if in.Index%2 == 0 {
+			old = strings.Repeat(sentinel, 4000)
+		}
+		if err := os.WriteFile(path, []byte(old), 0o644); err != nil {
 			res.Harness = err.Error()
 			return res
 		}
@@ -185,7 +190,7 @@ func execC19(ctx *Ctx, in *Input) *Result {
 		if rerr != nil {
 			return fail("file-removed", "generation failed (%s: %s) and the existing output file is gone; effects on the path: %s", o.Outcome, firstLines(o.Diag, 1), touched)
 		}
-		if string(after) != sentinel {
+		if string(after) != old {
 			return fail("file-damaged", "generation failed (%s: %s) and the existing output file was changed (%d bytes now); effects on the path: %s", o.Outcome, firstLines(o.Diag, 1), len(after), touched)
 		}
 		if touched != "" {
